@@ -171,15 +171,17 @@ def measure_cases(ctx, quick, n_cases=None, seeds=None):
                                 # sub-windows whose origins differ in x and y
                                 if rng.random() < 0.5 and dims[0] >= 2 and dims[1] >= 2:
                                     kw['xrange'] = (rng.randint(0, dims[0] - 1), dims[0]); kw['yrange'] = (rng.randint(0, dims[1] - 1), dims[1])
+                            kw['pairs'] = rng.choice(['corner <=', 'corner <', 'row <', 'row <=', '<', '<='])      # first site: corner / first row / anywhere
                             try:
                                 res2 = env.measure_2site(A, B, **kw)
                             except TypeError:
                                 continue
+                            ctx.count('measure_2site:pairs=' + kw['pairs'].split()[0].strip('<='))
                             for (s0, s1), val in res2.items():
                                 ref = dense_ev(jw, v, [A, B], [s2i[s0], s2i[s1]])
                                 if abs(val - ref) > tol:
                                     ctx.violation('%s.measure_2site(dirn=%s%s) at %r gives %r, the dense state has %r (%s %s %r)' % (
-                                        name, dirn, ''.join(', %s=%r' % kv for kv in kw.items() if kv[0] in ('xrange', 'yrange')), (tuple(s0), tuple(s1)), complex(val), complex(ref), fam, sym, dims),
+                                        name, dirn, ''.join(', %s=%r' % kv for kv in kw.items() if kv[0] in ('xrange', 'yrange', 'pairs')), (tuple(s0), tuple(s1)), complex(val), complex(ref), fam, sym, dims),
                                         dict(desc, env=name, what='2site'))
                                     raise StopIteration
                             ctx.count('measure_2site:' + name)
@@ -322,9 +324,10 @@ def metric_and_evolution(ctx, quick):
 
 
 def run(ctx):
-    st = vlib.prepare(ctx, PROP_V)
+    st = vlib.prepare(ctx, PROP_V, need_translators=('tr_window',))
     quick = ctx.tier == 'quick'
-    ctx.cov['rule'] = ('(a) random histories of add_charge_swaps_ in 6 symmetries vs the Coq model, exactly; (b) finite PEPS (1x3 .. 3x3) from product states and random '
+    ctx.cov['rule'] = ('(a) random histories of add_charge_swaps_ in 6 symmetries vs the Coq model, exactly; the string bookkeeping of measure_2site translated from the source '
+                       'on every run (tr_window); (b) finite PEPS (1x3 .. 3x3) from product states and random '
                        'shallow circuits for spinless / spinful fermions and spins: identity, 1-site, nearest-neighbour, 2-site (both directions, sub-windows) and 3-site '
                        'expectation values from boundary-MPS, CTM (init=dl + expand_outward_) and BP (strips) environments vs the dense state with explicit '
                        'Jordan-Wigner matrices; (c) NTU bond metrics of 6 cluster types Hermitian and positive semi-definite; evolution_step_ with non-binding limits vs '
@@ -334,6 +337,10 @@ def run(ctx):
     metric_and_evolution(ctx, quick)
     if bad and not ctx.violations:
         ctx.violation('charge-swap model and implementation disagree: %s' % json.dumps(bad[0], default=str)[:600], dict(kind='correspondence', first=bad[:2]))
+    if (bad or ctx.broken) and not ctx.violations:
+        # a proof obligation or the tie broke: look harder for an input on which the property fails
+        measure_cases(ctx, quick, n_cases=80)
+        ctx.extra['extended_search'] = dict(cases=80, found=len(ctx.violations))
     if ctx.broken and not ctx.violations:
         ctx.violation('obligation or tie no longer checks: %s' % ctx.broken[0], dict(kind='obligation', broken=ctx.broken), found_input=False)
     return ctx.finish(level='proof', checker_cmd='make -C /verif/coq (coqc 8.16.1) + coqc properties/C12.v (Print Assumptions)',
@@ -341,7 +348,7 @@ def run(ctx):
 
 
 def replay(ctx, path):
-    st = vlib.prepare(ctx, PROP_V)
+    st = vlib.prepare(ctx, PROP_V, need_translators=('tr_window',))
     rec = json.load(open(path))
     seeds = [v['replay']['case_seed'] for v in rec.get('violations', []) if isinstance(v.get('replay'), dict) and v['replay'].get('case_seed') is not None]
     if seeds:
